@@ -470,7 +470,7 @@ def pairloop_fns(which):
                        members=[(r'^operator bool\|nano::base_datasource_iterator_t', 'iter_bool(&({*self}).base)')])
     loop_calls = [(r'^operator\*\|tuple<.*\(\) const\|', 'pairiter_deref'),
                   (r'^operator\+\+\|nano::base_datasource_iterator_t &\(\)', 'iter_inc(&({0}).base)'),
-                  (r'^operator\(\)\|double \(const nano::tensor_t<nano::tensor_carray_storage_t, int, 3> &, const nano::tensor_t<nano::tensor_carray_storage_t, unsigned int, 3> &\) const', 'product_op_i32_u32')]
+                  (r'^operator\(\)\|(double|nano::scalar_t) \(const nano::tensor_t<nano::tensor_carray_storage_t, int, 3> &, const nano::tensor_t<nano::tensor_carray_storage_t, unsigned int, 3> &\) const', 'product_op_i32_u32')]
     if which == 'select':
         loop = Fn('pairwise_select_scalar', PAIR_TU, 'select_scalar', flt='pairwise_generator_t',
                   select=lambda d: astload.template_args(d) == [PAIR_IT],
